@@ -9,6 +9,7 @@
 from __future__ import annotations
 
 import contextlib
+import enum
 import importlib
 import logging
 import re
@@ -163,6 +164,33 @@ def _public_sut_names(module: object, module_alias: str) -> list[str]:
         The sorted list of public names.
     """
     return sorted(name for name in dir(module) if not name.startswith("_") and name != module_alias)
+
+
+def _enum_types_of(value: object) -> list[type[enum.Enum]]:
+    """Collect the enum classes that the rendering of an asserted value names.
+
+    Enum members are rendered as ``ClassName.MEMBER``, so the class must be bound in
+    the test file, also when it is not a public name of the module under test (a
+    private enum class, an enum class the module did not import by name).
+
+    Args:
+        value: The asserted value.
+
+    Returns:
+        The enum classes of the value and of its (nested) elements.
+    """
+    if isinstance(value, enum.Enum):
+        return [type(value)]
+    if isinstance(value, list | tuple | set | frozenset):
+        return [enum_type for element in value for enum_type in _enum_types_of(element)]
+    if isinstance(value, dict):
+        return [
+            enum_type
+            for item in value.items()
+            for element in item
+            for enum_type in _enum_types_of(element)
+        ]
+    return []
 
 
 def _is_expected_exception(stmt: Statement, exc_type: type[BaseException]) -> bool:
@@ -433,6 +461,7 @@ class TestSuiteWriter:
         functions: list[cst.SimpleStatementLine | cst.BaseCompoundStatement] = []
         needs_pytest = False
         used_exc_types: set[type[BaseException]] = set()
+        used_enum_types: dict[type[enum.Enum], None] = {}
 
         # Build one test function per test case chromosome in the suite
         for idx, individual in enumerate(suite.test_case_chromosomes):
@@ -452,6 +481,11 @@ class TestSuiteWriter:
                 needs_pytest = True
             func, func_used_exc_types = self._build_test_function(idx, tc, exc_types)
             used_exc_types.update(func_used_exc_types)
+            for stmt in tc.statements():
+                for assertion in stmt.assertions:
+                    used_enum_types.update(
+                        dict.fromkeys(_enum_types_of(getattr(assertion, "object", None)))
+                    )
             functions.append(func)
 
         # An empty suite still imports the SUT below, so coverage-by-import keeps
@@ -462,18 +496,6 @@ class TestSuiteWriter:
             functions = [cst.parse_statement("def test_empty():\n    pass\n")]
 
         preamble: list[cst.SimpleStatementLine | cst.BaseCompoundStatement] = []
-
-        # Build exception imports for non-builtin exception types that are still
-        # referenced by a pytest.raises(...) call (exceptions handled via the
-        # xfail marker are emitted bare and need no import).
-        exc_import_stmts: list[cst.SimpleStatementLine | cst.BaseCompoundStatement] = []
-        by_module: dict[str, list[str]] = {}
-        for exc_type in used_exc_types:
-            if exc_type.__module__ != "builtins":
-                by_module.setdefault(exc_type.__module__, []).append(exc_type.__name__)
-        for mod in sorted(by_module):
-            names = ", ".join(sorted(set(by_module[mod])))
-            exc_import_stmts.append(cst.parse_statement(f"from {mod} import {names}\n"))
 
         # Build the full module: [sys.path preamble +] import(s) + test functions
         # Use explicit import of all public names instead of `import *` so that
@@ -488,6 +510,32 @@ class TestSuiteWriter:
             public_names = _public_sut_names(sut_mod, module_alias)
         except Exception:  # noqa: BLE001
             public_names = []
+
+        # Build exception imports for non-builtin exception types that are still
+        # referenced by a pytest.raises(...) call (exceptions handled via the
+        # xfail marker are emitted bare and need no import).
+        exc_import_stmts: list[cst.SimpleStatementLine | cst.BaseCompoundStatement] = []
+        by_module: dict[str, list[str]] = {}
+        for exc_type in used_exc_types:
+            if exc_type.__module__ != "builtins":
+                by_module.setdefault(exc_type.__module__, []).append(exc_type.__name__)
+        # Enum members are asserted as ``ClassName.MEMBER``: bind the class as well, if
+        # it can be imported under that name.
+        for enum_type in used_enum_types:
+            # The module may have been reloaded since the value was observed, so the
+            # class is looked up by its name, not by identity.
+            bound = getattr(sys.modules.get(enum_type.__module__), enum_type.__name__, None)
+            if (
+                isinstance(bound, type)
+                and bound.__module__ == enum_type.__module__
+                and bound.__qualname__ == enum_type.__qualname__
+                and not (enum_type.__module__ == module_name and bound.__name__ in public_names)
+            ):
+                by_module.setdefault(enum_type.__module__, []).append(enum_type.__name__)
+        for mod in sorted(by_module):
+            names = ", ".join(sorted(set(by_module[mod])))
+            exc_import_stmts.append(cst.parse_statement(f"from {mod} import {names}\n"))
+
         if public_names:
             names_str = ", ".join(public_names)
             star_stmt = cst.parse_statement(f"from {canonical_name} import {names_str}\n")
